@@ -313,8 +313,9 @@ pub fn c19(t: &Trace, r: &mut Report) {
                         r.fail(i, start, "reconstruct", format!("stairstep {} + fraction {} reproduces neither the input {} nor its clamped value", c.ss, c.frac, v));
                     }
                 }
-                // chromatic scale without history: fraction in [0, 1) semitone
-                if fresh && mask == 0xfff && (0.0..=10.0).contains(&v) {
+                // chromatic scale without history: fraction in [0, 1) semitone -- for every input value (inputs outside
+                // [0, 10] V are clamped first, so their fraction is 0)
+                if fresh && mask == 0xfff {
                     let fr = c.frac as f64;
                     if fr < 0.0 {
                         r.fail_d(
@@ -340,7 +341,13 @@ pub fn c19(t: &Trace, r: &mut Report) {
                     let lo = p as f64 * st - st / 10.0;
                     let hi = (p + 1) as f64 * st + st / 10.0;
                     let vd = v as f64;
-                    if still && vd > lo + 2e-5 && vd < hi - 2e-5 && c.note == p {
+                    // "kept by the hysteresis window" = the previous note is reported again although a quantizer
+                    // without history (same scale) would report another one; also every input strictly inside the window
+                    let kept_by_history = c.note == p && still && {
+                        let mut fq = fresh_quantizer(mask);
+                        fq.convert(v).note_num as u64 != c.note
+                    };
+                    if (still && vd > lo + 2e-5 && vd < hi - 2e-5 && c.note == p) || kept_by_history {
                         let fr = c.frac as f64;
                         let slack = (0.5f64).powi(19);
                         if fr < -0.1 * st - slack || fr > 1.1 * st + slack {
